@@ -348,6 +348,8 @@ fn select_cursors(r: &mut Rng, text: &str, near_line: Option<u32>, max: usize, e
 // running the queries of one state
 // ------------------------------------------------------------------------------------------------
 struct StateCtx<'a> {
+    /// e.g. ["std-bundled", "ieee-bundled"]: which language-defined units the state has edited (known findings)
+    state: Vec<String>,
     case: &'a Case,
     step: usize,
     out: &'a Out,
@@ -393,9 +395,65 @@ impl StateCtx<'_> {
         self.out.violation(
             &sig,
             json!({"kind": "violation", "class": class, "where": whr, "detail": detail, "step": self.step, "last_edit_kind": last_kind,
-                   "loc_file": loc_file, "cursor": cursor.map(|(f, l, c)| json!([f, l, c])), "case": cj}),
+                   "loc_file": loc_file, "state": self.state, "cursor": cursor.map(|(f, l, c)| json!([f, l, c])), "case": cj}),
         );
     }
+}
+
+fn state_tokens(project: &Project, case: &Case, dir: &Path) -> Vec<String> {
+    let std = match case.std_mode.as_str() {
+        "none" => "std-absent",
+        "own" => {
+            let mut pristine = true;
+            for (lib, files) in &case.libs {
+                if lib == "std" {
+                    for f in files {
+                        let base = f.rsplit('/').next().unwrap_or(f);
+                        let orig = gen::read_latin1(&format!("/repo/vhdl_libraries/std/{base}"));
+                        match project.get_source(&dir.join(f)) {
+                            Some(src) => {
+                                if source_text(&src) != orig {
+                                    pristine = false;
+                                }
+                            }
+                            None => pristine = false,
+                        }
+                    }
+                }
+            }
+            if pristine {
+                "std-own-pristine"
+            } else {
+                "std-edited"
+            }
+        }
+        _ => "std-bundled",
+    };
+    let ieee = if case.libs.iter().any(|(l, _)| l == "ieee") { "ieee-own" } else { "ieee-bundled" };
+    vec![std.to_string(), ieee.to_string()]
+}
+
+fn initial_tokens(case: &Case) -> Vec<String> {
+    let std = match case.std_mode.as_str() {
+        "none" => "std-absent",
+        "own" => {
+            let pristine = case.libs.iter().filter(|(l, _)| l == "std").all(|(_, fs)| {
+                fs.iter().all(|f| {
+                    let base = f.rsplit('/').next().unwrap_or(f);
+                    let orig = gen::read_latin1(&format!("/repo/vhdl_libraries/std/{base}"));
+                    case.files.iter().any(|(n, t)| n == f && *t == orig)
+                })
+            });
+            if pristine {
+                "std-own-pristine"
+            } else {
+                "std-edited"
+            }
+        }
+        _ => "std-bundled",
+    };
+    let ieee = if case.libs.iter().any(|(l, _)| l == "ieee") { "ieee-own" } else { "ieee-bundled" };
+    vec![std.to_string(), ieee.to_string()]
 }
 
 fn check_ent(texts: &Texts, ent: EntRef<'_>) -> Option<String> {
@@ -689,8 +747,9 @@ impl Searcher for ArenaObs<'_> {
     }
 }
 
-/// arena id of every design unit of the user files: (library, unit name as described, file, arena id)
-fn unit_arenas(project: &Project, case: &Case, dir: &Path) -> Vec<(String, String, u32, String)> {
+/// arena id of every design unit of the user files: (library, file, description, line, character, arena id),
+/// in textual order within a file
+fn unit_arenas(project: &Project, case: &Case, dir: &Path) -> Vec<Value> {
     let mut out = vec![];
     for (name, _) in &case.files {
         let path = dir.join(name);
@@ -698,8 +757,8 @@ fn unit_arenas(project: &Project, case: &Case, dir: &Path) -> Vec<(String, Strin
         for lib in project.library_mapping_of(&src) {
             for (h, _ctx) in project.document_symbols(&lib, &src) {
                 let raw = h.ent.id().to_raw();
-                let pos = h.ent.decl_pos().map(|p| format!("{}:{}", p.range.start.line, p.range.start.character)).unwrap_or_default();
-                out.push((format!("{}", lib.name_utf8()), format!("{}|{}@{}", name, h.ent.describe(), pos), (raw >> 32) as u32, name.clone()));
+                let (l, c) = h.ent.decl_pos().map(|p| (p.range.start.line, p.range.start.character)).unwrap_or((0, 0));
+                out.push(json!([lib.name_utf8(), name, h.ent.describe(), l, c, (raw >> 32) as u32]));
             }
         }
     }
@@ -726,7 +785,7 @@ fn run_case(case: &Case, dir: &Path, hb: &Heartbeat, out: &Out, opts: &Opts) -> 
     let mut project = match made {
         Ok(p) => p,
         Err(e) => {
-            let mut sc = StateCtx { case, step: 0, out, stats: &mut stats, nviol: &mut nviol };
+            let mut sc = StateCtx { state: initial_tokens(case), case, step: 0, out, stats: &mut stats, nviol: &mut nviol };
             sc.report("panic", "Project::from_config", panic_text(&e), None);
             return (stats, nviol);
         }
@@ -755,13 +814,14 @@ fn run_case(case: &Case, dir: &Path, hb: &Heartbeat, out: &Out, opts: &Opts) -> 
                 }
             }));
             if let Err(e) = res {
-                let mut sc = StateCtx { case, step, out, stats: &mut stats, nviol: &mut nviol };
+                let mut sc = StateCtx { state: state_tokens(&project, case, dir), case, step, out, stats: &mut stats, nviol: &mut nviol };
                 sc.report("panic", "update_source", panic_text(&e), None);
                 return (stats, nviol);
             }
             edited = Some((e.file.clone(), e.range.map(|r| r[0]).unwrap_or(0)));
         }
         hb.set(json!({"case": case_upto(case, step), "step": step, "phase": "Project::analyse"}));
+        let tokens = state_tokens(&project, case, dir);
         let t = Instant::now();
         let res = catch_unwind(AssertUnwindSafe(|| project.analyse()));
         add_time("analyse", t);
@@ -769,14 +829,14 @@ fn run_case(case: &Case, dir: &Path, hb: &Heartbeat, out: &Out, opts: &Opts) -> 
         let diags = match res {
             Ok(d) => d,
             Err(e) => {
-                let mut sc = StateCtx { case, step, out, stats: &mut stats, nviol: &mut nviol };
+                let mut sc = StateCtx { state: tokens, case, step, out, stats: &mut stats, nviol: &mut nviol };
                 sc.report("panic", "analyse", panic_text(&e), None);
                 // the project may hold locks / half-analysed units now: stop this case
                 return (stats, nviol);
             }
         };
         hb.set(json!({"case": case_upto(case, step), "step": step, "phase": "queries"}));
-        let mut sc = StateCtx { case, step, out, stats: &mut stats, nviol: &mut nviol };
+        let mut sc = StateCtx { state: tokens, case, step, out, stats: &mut stats, nviol: &mut nviol };
         check_diags(&project, &mut sc, &diags);
         // files to query: the edited one, plus one other; at step 0 and at the last step all of them
         let mut qfiles: Vec<String> = vec![];
@@ -827,7 +887,7 @@ fn run_case(case: &Case, dir: &Path, hb: &Heartbeat, out: &Out, opts: &Opts) -> 
                         sc.report("arena", "entity id not resolvable", p, None);
                     }
                     arena_trace.push(json!({"step": step, "edited": edited.as_ref().map(|(f, _)| f.clone()), "nrefs": nrefs, "ndecls": ndecls,
-                        "units": units.iter().map(|(l, u, a, f)| json!([l, u, a, f])).collect::<Vec<_>>()}));
+                        "units": units}));
                 }
             }
         }
